@@ -545,6 +545,99 @@ def rule_unary(chk, prog, tier):
     r.exhaustive = True
 
 
+# ------------------------------------------------------------------ C05.h conditional operator
+
+def rule_conditional(chk, prog, tier):
+    r = chk.rule('C05.h', 'the conditional operator gives its result the type C11 6.5.15 prescribes for every pair of second/third operand classes (usual arithmetic conversions, same struct, void, pointer with null pointer constant, pointer with void pointer, compatible pointers with merged qualifiers) and rejects the others; a constant condition selects the right arm',
+                 floor=600, oracle='C11 6.5.15p3-6')
+    fn = prog.require_func('condexpr', 'expr.c')
+    O = oracle(SIGNEDCHAR['x86_64-sysv'])
+    def runner(it):
+        it.MAX_STEPS = 10 ** 9
+        w = World(prog, it=it, target='x86_64-sysv')
+        u = universe(w)
+        ops = operands(w, u)
+        QC = ev(prog, 'QUALCONST')
+        cint = w.mkptr(u['int'], 0); cint.obj.f[('qual',)] = QC        # pointer to const int: the qualifier of the pointee sits on the pointer type
+        ops.append(('ptr_cint', w.temp(cint, 'pci'), {'k': 'ptr', 'pointee': 'cint', 'type': cint}))
+        vd = w.temp(w.t('void'), 'v'); ops.append(('void', vd, {'k': 'void'}))
+        names = dict(u)
+        cur = {}
+        depth = {'n': 0}
+        def condexpr(i2, a, e):
+            depth['n'] += 1
+            try:
+                if depth['n'] > 1: return cur['r']
+                return i2.call(fn, a)
+            finally:
+                depth['n'] -= 1
+        it.models.update({'binaryexpr': lambda i2, a, e: cur['c'], 'consume': lambda i2, a, e: 1, 'expr': lambda i2, a, e: cur['l'], 'expect': lambda i2, a, e: None, 'condexpr': condexpr,
+                          'fatal': lambda i2, a, e: (_ for _ in ()).throw(Terminal('fatal', a)), 'error': lambda i2, a, e: (_ for _ in ()).throw(Terminal('error', a))})
+        def tname(t):
+            n = name_of_type(names, t)
+            if n in names: return n
+            if it.load(t.obj, t.path + ('kind',)) == ev(prog, 'TYPEPOINTER'):
+                b = it.load(t.obj, t.path + ('base',)); q = it.load(t.obj, t.path + ('qual',))
+                bn = name_of_type(names, b)
+                if b.obj is w.t('void').obj: bn = 'void'
+                return ('ptr', bn if bn in names or bn == 'void' else 'other', q)
+            if t.obj is w.t('void').obj: return 'void'
+            return 'other'
+        out = {}
+        cond = w.temp(u['int'], 'c')
+        for ln, le, ld in ops:
+            for rn, re_, rd in ops:
+                cur.update({'c': cond, 'l': le, 'r': re_})
+                try:
+                    e = it.call(fn, [Ptr(Obj('scope', 'heap'), ())])
+                    out[(ln, rn)] = tname(it.load(e.obj, ('type',)))
+                except Terminal as t:
+                    out[(ln, rn)] = 'error' if t.what == 'error' else 'terminal:' + t.what
+        # constant conditions
+        sel = {}
+        for cv in (0, 1, 7):
+            cur.update({'c': w.mkexpr('EXPRCONST', u['int'], None, u__constant__u=cv), 'l': ops[6][1], 'r': ops[8][1]})
+            e = it.call(fn, [Ptr(Obj('scope', 'heap'), ())])
+            x = e
+            while it.load(x.obj, ('kind',)) == ev(prog, 'EXPRCAST'): x = it.load(x.obj, ('base',))
+            sel[cv] = 'l' if x.obj is ops[6][1].obj else 'r' if x.obj is ops[8][1].obj else '?'
+        return out, {n: {k: v for k, v in d.items() if k != 'type'} for n, _, d in ops}, sel, (ops[6][0], ops[8][0])
+    runs = explore(prog, runner, {}, max_runs=2)
+    if len(runs) != 1 or runs[0].outcome != 'return':
+        raise AnalysisBroken('condexpr: %s' % [(x.outcome, x.detail) for x in runs])
+    out, descs, sel, selnames = runs[0].value
+    QC = ev(prog, 'QUALCONST')
+    PT = {'int': ('int', 0), 'char': ('char', 0), 'void': ('void', 0), 'cint': ('int', QC), 'func': ('other', 0), 'incomplete': ('other', 0)}
+    for (ln, rn), got in out.items():
+        L, R = descs[ln], descs[rn]
+        key = 'cond:%s,%s' % (ln, rn)
+        where = 'expr.c:%s' % fn.get('line')
+        la, ra = L['k'] == 'arith', R['k'] == 'arith'
+        want = None
+        if la and ra:
+            want = o_common(L['t'], L.get('w'), R['t'], R.get('w'), O)
+        elif L['k'] == 'struct' and R['k'] == 'struct': want = 'other'
+        elif L['k'] == 'void' and R['k'] == 'void': want = 'void'
+        elif L['k'] == 'ptr' and R.get('null'): want = ('ptr',) + PT[L['pointee']]
+        elif R['k'] == 'ptr' and L.get('null'): want = ('ptr',) + PT[R['pointee']]
+        elif L['k'] == 'ptr' and R['k'] == 'ptr':
+            lp, rp = PT[L['pointee']], PT[R['pointee']]
+            if 'func' in (L['pointee'], R['pointee']) and L['pointee'] != R['pointee']:
+                continue      # function pointer with void * / object pointer: constraint violation that compilers accept as an extension: not judged
+            if lp[0] == 'void' or rp[0] == 'void': want = ('ptr', 'void', lp[1] | rp[1])
+            elif L['pointee'] == R['pointee'] or lp[0] == rp[0] != 'other': want = ('ptr', lp[0], lp[1] | rp[1])
+            else: want = 'error'
+        else:
+            want = 'error'
+        if want == 'error':
+            r.instance(got == 'error', key, where, 'C11 6.5.15p3 allows no such operand pair: expected a diagnostic, got %s' % (got,))
+        else:
+            r.instance(not isinstance(got, str) and False or canon(got) == canon(want) if isinstance(want, str) else got == want, key, where, 'expected result type %s, got %s' % (want, got))
+    for cv, which in sel.items():
+        r.instance(which == ('l' if cv else 'r'), 'cond-const:%d' % cv, 'expr.c:%s' % fn.get('line'), 'a constant condition %d must select the %s operand; selected %s' % (cv, 'second' if cv else 'third', which))
+    r.exhaustive = True
+
+
 # ------------------------------------------------------------------ C05.d integer literal typing
 
 LIT_ROWS = {   # suffix class -> (decimal list, non-decimal list)   C11 6.4.4.1p5
@@ -754,6 +847,7 @@ def run(chk, tier):
     chk.guard('C05.c', lambda: rule_binary_types(chk, prog, tier))
     chk.guard('C05.c2', lambda: rule_pointer_scale(chk, prog, tier))
     chk.guard('C05.g', lambda: rule_unary(chk, prog, tier))
+    chk.guard('C05.h', lambda: rule_conditional(chk, prog, tier))
     chk.guard('C05.d', lambda: rule_literals(chk, prog, tier))
     chk.guard('C05.d2', lambda: rule_literal_base(chk, prog, tier))
     chk.guard('C05.f', lambda: rule_descriptors(chk, prog, tier))
